@@ -759,12 +759,33 @@ impl<'a> Writer<'a> {
         class: Class,
         ttl: Ttl,
         rdata: &Rdata,
+        hint_pointer_vec: Option<&mut HintPointerVec>,
+    ) -> Result<()> {
+        self.add_rr_with_raw_ttl(owner, rr_type, class, ttl.into(), rdata, hint_pointer_vec)
+    }
+
+    /// Like [`Writer::add_rr`], but takes the 32-bit TTL field as raw
+    /// bits. The OPT pseudo-RR reuses the TTL field for the upper bits
+    /// of the extended RCODE, the EDNS version, and flags
+    /// ([RFC 6891 § 6.1.3]), so its most significant bit may
+    /// legitimately be set. A [`Ttl`] cannot represent such a value
+    /// (per [RFC 2181 § 8], it reads as zero).
+    ///
+    /// [RFC 2181 § 8]: https://datatracker.ietf.org/doc/html/rfc2181#section-8
+    /// [RFC 6891 § 6.1.3]: https://datatracker.ietf.org/doc/html/rfc6891#section-6.1.3
+    fn add_rr_with_raw_ttl(
+        &mut self,
+        owner: HintedName,
+        rr_type: Type,
+        class: Class,
+        raw_ttl: u32,
+        rdata: &Rdata,
         mut hint_pointer_vec: Option<&mut HintPointerVec>,
     ) -> Result<()> {
         self.most_recent_owner = self.write_hinted_name(owner)?;
         self.try_push_u16(rr_type.into())?;
         self.try_push_u16(class.into())?;
-        self.try_push_u32(ttl.into())?;
+        self.try_push_u32(raw_ttl)?;
 
         // Save two octets for the RDLENGTH field. We must compute and
         // write this field at the end, since it's affected by
@@ -937,13 +958,15 @@ impl<'a> Writer<'a> {
 
         if let Some(ref edns) = self.edns {
             let class = Class::from(edns.udp_payload_size);
-            let ttl = Ttl::from((edns.extended_rcode_upper_bits as u32) << 24);
+            // The OPT "TTL" is not a TTL (see add_rr_with_raw_ttl): an
+            // extended RCODE of 2,048 or more sets its top bit.
+            let raw_ttl = (edns.extended_rcode_upper_bits as u32) << 24;
             self.available += OPT_RECORD_SIZE;
-            self.add_rr(
+            self.add_rr_with_raw_ttl(
                 HintedName::new(Hint::None, Name::root()),
                 Type::OPT,
                 class,
-                ttl,
+                raw_ttl,
                 Rdata::empty(),
                 None,
             )
